@@ -811,6 +811,10 @@ def mergecfg_cases(ctx):
         for k in rng.choice(skeys, int(rng.integers(0, 4)), replace=False):
             v = dflt[str(k)]
             cfg[str(k)] = (not v) if isinstance(v, bool) else (v + 1 if isinstance(v, (int, float)) else (v + "_c" if isinstance(v, str) else v[:1]))
+            if isinstance(v, float) and rng.random() < 0.5:
+                cfg[str(k)] = int(v) + 2      # a JSON config may well say 3 for a float-valued setting (and generate writes integral numbers as ints)
+            elif isinstance(v, int) and not isinstance(v, bool) and rng.random() < 0.3:
+                cfg[str(k)] = float(v) + 0.5
         if rng.random() < 0.3:
             cfg["brand_new_key"] = 3
         cs.append({"kind": "mergecfg", "args": tag_dict(args), "config": tag_dict(cfg), "use_config": bool(i % 5 != 0)})
